@@ -196,6 +196,23 @@ fn lookup_onecharacter(code: &str) -> Option<CodeEntry> {
     Some((Phenomenon::Unrecognized, code.get(2..3)?.into()))
 }
 
+// Verification hooks: read-only views of the private codebooks
+#[cfg(feature = "verif-hooks")]
+#[doc(hidden)]
+#[allow(missing_docs)]
+pub mod verif_hooks {
+    use super::{CODEBOOK2, CODEBOOK3};
+    use crate::{Phenomenon, SignificanceLevel};
+
+    pub fn codebook3() -> Vec<(&'static str, Phenomenon, SignificanceLevel)> {
+        CODEBOOK3.entries().map(|(k, v)| (*k, v.0, v.1)).collect()
+    }
+
+    pub fn codebook2() -> Vec<(&'static str, Phenomenon)> {
+        CODEBOOK2.entries().map(|(k, v)| (*k, *v)).collect()
+    }
+}
+
 #[cfg(test)]
 mod tests {
     use super::*;
